@@ -42,9 +42,25 @@ type Session struct {
 
 var subFilters = []string{"a/b/", "b/a/", "a/a/", "b/b/", "a/", "a/b/c/", "x/y/", "y/x/", "a/+/", "+/b/"}
 
+var families = [][]string{{"a/b/", "b/a/"}, {"a/a/", "b/b/"}, {"x/y/", "y/x/"}, {"a/b/c/", "b/c/a/", "c/a/b/"}, {"a/a/b/", "b/", "c/c/b/"},
+	{"a/b/c/", "a/c/b/", "b/a/c/", "c/b/a/"}}
+
 func genSession(t *rapid.T) Session {
 	s := Session{Will: rapid.SampledFrom([]string{"none", "ok", "ok", "ok", "nowrite", "badtopic", "extend"}).Draw(t, "will"),
 		WillRet: rapid.Bool().Draw(t, "willret"), User: rapid.SampledFrom([]string{"", "joe"}).Draw(t, "user")}
+	// family block: one connection takes several filters whose ssids share the XOR hash code (permutations of the same
+	// words; a/a/b/ ~ b/ ~ c/c/b/), one SUBSCRIBE each in a drawn order, then gives some of them up in a drawn order
+	if rapid.IntRange(0, 9).Draw(t, "family") < 4 {
+		fam := rapid.SampledFrom(families).Draw(t, "fam")
+		order := rapid.Permutation(fam).Draw(t, "famorder")
+		for _, f := range order {
+			s.Reqs = append(s.Reqs, Req{K: "sub", Topics: []string{f}})
+		}
+		drop := rapid.Permutation(fam).Draw(t, "droporder")
+		for _, f := range drop[:rapid.IntRange(0, len(drop)).Draw(t, "ndrop")] {
+			s.Reqs = append(s.Reqs, Req{K: "unsub", Topics: []string{f}})
+		}
+	}
 	for i, n := 0, rapid.IntRange(0, 6).Draw(t, "nreqs"); i < n; i++ {
 		var r Req
 		switch k := rapid.IntRange(0, 9).Draw(t, "kind"); {
